@@ -104,7 +104,8 @@ type c19IPStep struct {
 }
 
 type c19IPCase struct {
-	Posted bool        `json:"posted"` // the valid presentation was already posted (an authorization code exists)
+	Posted bool        `json:"posted"`          // the valid presentation was already posted (an authorization code exists)
+	Scope  string      `json:"scope,omitempty"` // scope of the accepted authorization request: "" = test | sr (policy definition with submission requirements where the holder's one credential fulfils two descriptors)
 	Steps  []c19IPStep `json:"steps"`
 }
 
@@ -119,7 +120,7 @@ var c19IPTargets = map[string][]string{
 	"authorize":   {"", "jar_claims", "jar_claims", "jar_header"},
 	// the wallet role of /authorize: an OpenID4VP authorization request from a (remote) verifier; presentation_definition and
 	// client_metadata arrive inline (as JSON inside a string claim) or by reference
-	"authorize_wallet": {"", "", "", "pd_inline", "pd_inline", "md_inline", "jar_claims"},
+	"authorize_wallet": {"", "", "", "pd_inline", "pd_inline", "md_inline", "jar_claims", "oidc_config"},
 	"request_get":      {""},
 	"request_post":     {"", "wallet_metadata", "wallet_metadata"},
 	"introspect":       {""},
@@ -133,7 +134,7 @@ var c19IPKeys = []string{"iss", "sub", "aud", "exp", "nbf", "iat", "jti", "nonce
 	"issuer", "authorization_endpoint", "vp_formats", "vp_formats_supported", "htm", "htu", "ath"}
 
 func c19IPGen(t *rapid.T) c19IPCase {
-	c := c19IPCase{Posted: rapid.IntRange(0, 3).Draw(t, "posted") == 0}
+	c := c19IPCase{Posted: rapid.IntRange(0, 3).Draw(t, "posted") == 0, Scope: rapid.SampledFrom([]string{"", "", "", "sr"}).Draw(t, "scope")}
 	n := rapid.SampledFrom([]int{1, 1, 2, 2, 3}).Draw(t, "nsteps")
 	for i := 0; i < n; i++ {
 		l := fmt.Sprintf("s%d", i)
@@ -165,6 +166,10 @@ func c19IPGen(t *rapid.T) c19IPCase {
 // Saved replays select by index (Variant/3 and Variant/97): append only, do not reorder.
 var c19IPPDKinds = []string{"uri", "uri", "inline", "inline", "null", "null", "{}", "[]", "1", "\"x\"", "{", "", "uri-zero", "uri-error", "both", "absent", "object", "[null]", "{\"input_descriptors\":null}", "{\"input_descriptors\":[null]}", "{\"id\":\"x\",\"input_descriptors\":[{\"id\":\"1\",\"constraints\":null}]}"}
 var c19IPMDKinds = []string{"uri", "uri", "uri", "inline", "inline", "null", "null", "{}", "[]", "1", "{", "uri-zero", "uri-error", "both", "absent", "{\"vp_formats\":null}", "{\"vp_formats\":{\"jwt_vp_json\":null}}"}
+
+// the remote party's OpenID configuration claims (selected by Variant/13; saved replays depend on the indices: append only).
+// A literal replaces the value of the jwks claim; "absent" removes it.
+var c19IPOIDCKinds = []string{"valid", "valid", "valid", "absent", "valid", "null", "{}", `{"keys":null}`, `{"keys":[]}`, `{"keys":[{}]}`, `"x"`, "1", `[]`, `{"keys":[null]}`, "valid", "valid", "metadata-null", "all-null", "error"}
 
 // hostile constants
 var c19IPVPConsts = []string{"[]", "[null]", "{}", "", "null", "[[]]", "[[[]],[]]", "[{}]", "\"\"", "[\"\"]", "[1]", "true", "{\"verifiableCredential\":[]}", "[\"a.b.c\"]", "a.b.c", "."}
@@ -252,6 +257,9 @@ const c19IPPolicy = `{"test":{"organization":{"id":"pd_test","format":{"jwt_vc":
    {"path":["$.type"],"filter":{"type":"string","const":"TestCredential"}},
    {"id":"organization_name","path":["$.credentialSubject.organization.name","$.credentialSubject[0].organization.name"],"filter":{"type":"string"}},
    {"id":"organization_city","path":["$.credentialSubject.organization.city","$.credentialSubject[0].organization.city"],"filter":{"type":"string"}}]}}]}},
+ "sr":{"organization":{"id":"pd_sr","submission_requirements":[{"rule":"all","from":"A"}],
+   "input_descriptors":[{"id":"by_type","group":["A"],"constraints":{"fields":[{"path":["$.type"],"filter":{"type":"string","const":"TestCredential"}}]}},
+     {"id":"by_name","group":["A"],"constraints":{"fields":[{"id":"organization_name","path":["$.credentialSubject.organization.name","$.credentialSubject[0].organization.name"],"filter":{"type":"string"}}]}}]}},
  "two":{"organization":{"id":"pd_two_org","input_descriptors":[{"id":"id_org","constraints":{"fields":[{"path":["$.type"],"filter":{"type":"string","const":"TestCredential"}}]}}]},
         "user":{"id":"pd_two_user","input_descriptors":[{"id":"id_user","constraints":{"fields":[{"path":["$.type"],"filter":{"type":"string","const":"UserCredential"}}]}}]}}}`
 
@@ -358,6 +366,7 @@ type c19IPRemote struct {
 	pdMode        string // what presentation_definition_uri dereferences to: "" valid | zero (the remote answered null / {}) | error
 	mdMode        string // same for client_metadata_uri
 	pd            *pe.PresentationDefinition
+	oidcDoc       []byte // claims of the remote party's OpenID configuration; nil = valid
 	postedError   string // description of the last error posted to the verifier's response_uri
 	postedVP      int
 }
@@ -423,10 +432,30 @@ func (c *c19IPRemote) RequestRFC021AccessToken(context.Context, string, string, 
 func (c *c19IPRemote) OpenIdCredentialIssuerMetadata(context.Context, string) (*oauth.OpenIDCredentialIssuerMetadata, error) {
 	return nil, fmt.Errorf("not available")
 }
+
+// OpenIDConfiguration answers like auth/client/iam.HTTPClient: the (signed, by the remote party's own DID key) entity
+// statement's claims are decoded with oauth.OpenIDConfiguration's own UnmarshalJSON. The claims are the remote party's to
+// choose: oidcDoc, when set, replaces the valid ones.
 func (c *c19IPRemote) OpenIDConfiguration(_ context.Context, issuer string) (*oauth.OpenIDConfiguration, error) {
-	return &oauth.OpenIDConfiguration{Issuer: issuer, Subject: issuer, JWKs: c19IPJWKS(),
-		Metadata: oauth.EntityStatementMetadata{OpenIDProvider: c.asMetadata(issuer)}}, nil
+	doc := c.oidcDoc
+	if doc == nil {
+		doc = c19IPOIDCClaims(issuer, c)
+	}
+	var cfg oauth.OpenIDConfiguration
+	if err := json.Unmarshal(doc, &cfg); err != nil {
+		return nil, fmt.Errorf("unable to unmarshal response: %w", err)
+	}
+	return &cfg, nil
 }
+
+// c19IPOIDCClaims are the claims of a valid OpenID configuration (entity statement) of the remote party.
+func c19IPOIDCClaims(issuer string, c *c19IPRemote) []byte {
+	jwks, _ := json.Marshal(c19IPJWKS())
+	md, _ := json.Marshal(c.asMetadata(issuer))
+	is, _ := json.Marshal(issuer)
+	return []byte(fmt.Sprintf(`{"iss":%s,"sub":%s,"iat":%d,"exp":%d,"metadata":{"openid_provider":%s},"jwks":%s}`, is, is, time.Now().Unix()-5, time.Now().Unix()+3600, md, jwks))
+}
+
 func (c *c19IPRemote) VerifiableCredentials(context.Context, string, string, string) (*iamclient.CredentialResponse, error) {
 	return nil, fmt.Errorf("not available")
 }
@@ -457,6 +486,9 @@ type c19IPFix struct {
 	e      *echo.Echo
 	cache  *gocacheclient.Cache
 	remote *c19IPRemote
+	scope  string // scope of the accepted authorization request
+
+	s2sVPsr, s2sSubSR string // presentation + submission for the s2s grant under scope "sr"
 
 	state, nonce, requestID string // of the accepted authorization request
 	requestIDPost           string // a request object that must be fetched with POST
@@ -503,11 +535,15 @@ func c19IPNewKey(before, after map[string]bool) string {
 }
 
 func (f *c19IPFix) buildVP(nonce string, validity time.Duration) (string, string) {
+	return f.buildVPFor(f.scope, nonce, validity)
+}
+
+func (f *c19IPFix) buildVPFor(scope string, nonce string, validity time.Duration) (string, string) {
 	holderDID := did.MustParseDID(c19IPHolderDID)
 	cred, err := vc.ParseVerifiableCredential(f.env.vcJWT)
 	f.x.NoErr(err, "parse holder credential")
 	wallet := holder.NewMemoryWallet(f.env.ld.DocumentLoader(), c19IPKeysRes{}, c19IPSigner{}, map[did.DID][]vc.VerifiableCredential{holderDID: {*cred}})
-	mapping, err := f.env.pdp.PresentationDefinitions(context.Background(), c19IPScope)
+	mapping, err := f.env.pdp.PresentationDefinitions(context.Background(), scope)
 	f.x.NoErr(err, "policy lookup")
 	pd := mapping[pe.WalletOwnerOrganization]
 	formats := map[string]map[string][]string{"jwt_vp_json": {"alg_values_supported": {"ES256"}}, "jwt_vc_json": {"alg_values_supported": {"ES256"}}, "ldp_vc": {"proof_type_values_supported": {"JsonWebSignature2020"}}}
@@ -518,8 +554,12 @@ func (f *c19IPFix) buildVP(nonce string, validity time.Duration) (string, string
 	return vp.Raw(), string(sb)
 }
 
-func c19IPNewFix(x *h.Ctx, posted bool) *c19IPFix {
-	f := &c19IPFix{x: x, env: c19IPGetEnv(x), remote: &c19IPRemote{}}
+func c19IPNewFix(x *h.Ctx, posted bool, scope string) *c19IPFix {
+	f := &c19IPFix{x: x, env: c19IPGetEnv(x), remote: &c19IPRemote{}, scope: c19IPScope}
+	if scope == "sr" {
+		f.scope = "sr"
+		x.Class("flow-scope=sr(submission requirements, one credential fulfils two descriptors)")
+	}
 	f.cache = gocacheclient.New(15*time.Minute, 0)
 	db := storage.NewVerifSessionDatabase(go_cache.NewGoCache(f.cache))
 	publicURL, _ := url.Parse(c19IPPublicURL)
@@ -546,7 +586,7 @@ func c19IPNewFix(x *h.Ctx, posted bool) *c19IPFix {
 	all := f.keys("")
 	_, err = f.w.handleAuthorizeRequestFromHolder(audit.TestContext(), c19IPSubject, oauthParameters{
 		oauth.RedirectURIParam: c19IPClientID + "/callback", "aud": c19IPIssuerURL, oauth.CodeChallengeParam: f.pkce.Challenge, oauth.CodeChallengeMethodParam: f.pkce.ChallengeMethod,
-		oauth.ScopeParam: c19IPScope, oauth.ClientIDParam: c19IPClientID, oauth.StateParam: f.clientState, oauth.ResponseTypeParam: oauth.CodeResponseType})
+		oauth.ScopeParam: f.scope, oauth.ClientIDParam: c19IPClientID, oauth.StateParam: f.clientState, oauth.ResponseTypeParam: oauth.CodeResponseType})
 	x.NoErr(err, "valid authorization request")
 	for k := range f.keys("") {
 		if all[k] {
@@ -573,7 +613,8 @@ func c19IPNewFix(x *h.Ctx, posted bool) *c19IPFix {
 	}
 	// 2. valid presentations by the node's own wallet code
 	f.vp, f.sub = f.buildVP(f.nonce, time.Minute)
-	f.s2sVP, f.s2sSub = f.buildVP("s2s-nonce-"+f.state, 4*time.Second)
+	f.s2sVP, f.s2sSub = f.buildVPFor(c19IPScope, "s2s-nonce-"+f.state, 4*time.Second)
+	f.s2sVPsr, f.s2sSubSR = f.buildVPFor("sr", "s2s-sr-nonce-"+f.state, 4*time.Second)
 	// 3. optionally the presentation was posted already: an authorization code exists
 	if posted {
 		status, body := f.do(http.MethodPost, "/oauth2/"+c19IPSubject+"/response", url.Values{"state": {f.state}, "vp_token": {f.vp}, "presentation_submission": {f.sub}}, nil)
@@ -747,6 +788,43 @@ func c19IPApplyOps(form url.Values, ops []c19IPParamOp, consts map[string][]stri
 	}
 }
 
+// c19IPOIDCDoc chooses what the remote party's OpenID configuration says for this step (nil = valid).
+func c19IPOIDCDoc(x *h.Ctx, remote *c19IPRemote, s c19IPStep, ap *c19x.Applied, ok *bool) []byte {
+	valid := c19IPOIDCClaims(c19IPClientID, remote)
+	if s.Target == "oidc_config" {
+		x.Class("oidc-config=plan-mutated")
+		if s.Plan == nil {
+			return nil
+		}
+		doc, a := s.Plan.Apply(valid)
+		*ap, *ok = a, !a.Oversize
+		return doc
+	}
+	kind := c19IPOIDCKinds[int(s.Variant/13)%len(c19IPOIDCKinds)]
+	if kind == "valid" {
+		return nil
+	}
+	x.Class("oidc-config:jwks=" + kind)
+	var m map[string]json.RawMessage
+	if json.Unmarshal(valid, &m) != nil {
+		return nil
+	}
+	switch kind {
+	case "absent":
+		delete(m, "jwks")
+	case "metadata-null":
+		m["metadata"] = json.RawMessage("null")
+	case "all-null":
+		return []byte("null")
+	case "error":
+		return []byte("{")
+	default:
+		m["jwks"] = json.RawMessage(kind)
+	}
+	b, _ := json.Marshal(m)
+	return b
+}
+
 // shallow first-step rejections per response text
 var c19IPShallow = []string{"subject not found", "missing required parameters", "missing state", "missing vp_token", "missing code parameter", "missing code_verifier", "missing client_id",
 	"is not supported", "Invalid format for parameter", "code=400, message=", "missing redirect_uri", "required to use signed request objects", "request object not found", "missing state parameter",
@@ -764,7 +842,7 @@ func c19IPRun(x *h.Ctx, c c19IPCase) {
 		return
 	}
 	var f *c19IPFix
-	c19x.Setup(x, "iam public fixture", func() { f = c19IPNewFix(x, c.Posted) })
+	c19x.Setup(x, "iam public fixture", func() { f = c19IPNewFix(x, c.Posted, c.Scope) })
 	for i, s := range c.Steps {
 		subject := c19IPSubjectValue(s)
 		base := "/oauth2/" + url.PathEscape(subject)
@@ -776,6 +854,7 @@ func c19IPRun(x *h.Ctx, c c19IPCase) {
 		ok := true
 		neverWrites := false
 		pdKind, mdKind := "", ""
+		f.remote.oidcDoc = nil
 		switch s.Handler {
 		case "direct_post":
 			path = base + "/response"
@@ -789,9 +868,15 @@ func c19IPRun(x *h.Ctx, c c19IPCase) {
 			}
 		case "token_s2s":
 			path = base + "/token"
-			vp, sub, a, k := f.presentation(s, f.s2sVP, f.s2sSub)
+			baseVP, baseSub, scopes := f.s2sVP, f.s2sSub, []string{c19IPScope, c19IPScope, c19IPScope, "two", "unknown-scope", c19IPScope + " two"}
+			if (s.Variant/11)%4 == 0 {
+				// the scope whose policy definition has submission requirements, with a presentation built for it
+				baseVP, baseSub, scopes = f.s2sVPsr, f.s2sSubSR, []string{"sr", "sr", "sr", "sr", "sr", "sr " + c19IPScope}
+				x.Class("token_s2s:scope=sr")
+			}
+			vp, sub, a, k := f.presentation(s, baseVP, baseSub)
 			ap, ok = a, k
-			form = url.Values{"grant_type": {oauth.VpTokenGrantType}, "assertion": {vp}, "presentation_submission": {sub}, "scope": {[]string{c19IPScope, c19IPScope, c19IPScope, "two", "unknown-scope", c19IPScope + " two"}[int(s.Variant)%6]},
+			form = url.Values{"grant_type": {oauth.VpTokenGrantType}, "assertion": {vp}, "presentation_submission": {sub}, "scope": {scopes[int(s.Variant)%6]},
 				"client_id": {c19IPClientID}}
 		case "token_code":
 			path = base + "/token"
@@ -835,6 +920,7 @@ func c19IPRun(x *h.Ctx, c c19IPCase) {
 			case 4:
 				claims["response_type"] = []string{"token", "", "id_token", "code vp_token"}[int(s.Variant/5)%4]
 			}
+			f.remote.oidcDoc = c19IPOIDCDoc(x, f.remote, s, &ap, &ok)
 			jarTok := c19x.Compact([]byte(`{"alg":"ES256","kid":"`+c19IPHolderKid+`","typ":"oauth-authz-req+jwt"}`), jsonmut.Encode(claims), c19x.SigValid)
 			switch s.Target {
 			case "jar_claims":
@@ -922,6 +1008,7 @@ func c19IPRun(x *h.Ctx, c c19IPCase) {
 			default:
 				claims["client_metadata"] = mdKind
 			}
+			f.remote.oidcDoc = c19IPOIDCDoc(x, f.remote, s, &ap, &ok)
 			jarTok := c19x.Compact([]byte(`{"alg":"ES256","kid":"`+c19IPHolderKid+`","typ":"oauth-authz-req+jwt"}`), jsonmut.Encode(claims), c19x.SigValid)
 			if s.Target == "jar_claims" {
 				jarTok, ap, ok = c19IPMutateJWT(jarTok, s, "claims")
